@@ -1108,11 +1108,22 @@ class ForceTs:
             key = m.id
         fn = h.force_created_at if o["which"] == "created" else h.force_updated_at
         t = o.get("t")
+        # older handles of the same entity read their timestamps first, and must show the forced
+        # value afterwards as well
+        others = [] if o["kind"] == "file" else [x for x in run.pool.get(id(m), []) if x is not h][:4]
+        for x in others:
+            run.call(lambda: (x.created_at, x.updated_at))
         run.expect_ok(run.call(lambda: fn(t) if t is not None else fn()), "force_" + o["which"])
         want = t if t is not None else run.world.clock.t
         got = h.created_at if o["which"] == "created" else h.updated_at
         if got != want:
             run.violation("forced_ts_readback", "force_" + o["which"], "value", "forced %r read %r" % (want, got))
+        for x in others:
+            r2 = run.call(lambda: x.created_at if o["which"] == "created" else x.updated_at)
+            if r2[0] == "exc" or r2[1] != want:
+                run.violation("forced_ts_readback", "force_" + o["which"], "other_handle",
+                              "forced %r, another live handle of the entity reads %r" % (want, r2[1]))
+            run.stats["forced_ts_read_through_other_handle"] += 1
         return res(OK, touch={}, target=None) | {"forced": (key, o["which"], want)}
 
 
